@@ -230,7 +230,9 @@ def check(an: Analysis) -> None:
         if len(live) != 1:
             ob.fail(init, stores[0].ast if stores else None, f"with period = {label}, self._period is set {len(live)} times (must be exactly once)")
             continue
-        v = unwrap(live[0].ast.value)  # type: ignore[union-attr]
+        from ..kinds import reduce_ifexp
+
+        v = reduce_ifexp(live[0].ast.value, sc.env)  # type: ignore[union-attr]
         oo = dinit.origins(v.func.value) if isinstance(v, ast.Call) and isinstance(v.func, ast.Attribute) else dinit.origins(v)
         if value is a_delta:
             if not (isinstance(v, ast.Call) and isinstance(v.func, ast.Attribute) and v.func.attr == "total_seconds" and oo <= {"param:period"} and oo):
